@@ -667,7 +667,13 @@ func (e *Engine) next(in *ssa.Next, it *rangeIter) Value {
 		kz, vz = zero(mt.T.Key()), zero(mt.T.Elem())
 	} else {
 		tt := in.Type().(*types.Tuple)
-		kz, vz = zero(tt.At(1).Type()), zero(tt.At(2).Type())
+		zz := func(t types.Type) Value {
+			if b, ok := t.(*types.Basic); ok && b.Kind() == types.Invalid {
+				return nil // key/value unused by the loop
+			}
+			return zero(t)
+		}
+		kz, vz = zz(tt.At(1).Type()), zz(tt.At(2).Type())
 	}
 	return Tuple{TFalse, kz, vz}
 }
